@@ -49,6 +49,8 @@ def parseOp (fs : List String) : Option Op :=
   | ["rm", r] => (decRule r).map .remove
   | ["rmmany", rs] => (decRules rs).map .removeMany
   | ["rmf", i, vs] => match i.toNat?, decRule vs with | some i, some vs => some (.removeFiltered i vs) | _, _ => none
+  | ["rmfe", i, vs] => match i.toNat?, decRule vs with | some i, some vs => some (.removeFilteredEffects i vs) | _, _ => none
+  | ["values", i] => i.toNat?.map .values
   | ["upd", o, n] => match decRule o, decRule n with | some o, some n => some (.update o n) | _, _ => none
   | ["updmany", os, ns] => match decRules os, decRules ns with | some o, some n => some (.updateMany o n) | _, _ => none
   | ["clear"] => some .clear
